@@ -209,10 +209,10 @@ func Harness_C01_record_index() {
 // ---------- decoders on arbitrary bytes (C18) ----------
 
 // Harness_C18_decoders: every record/key decoder on an arbitrary buffer never panics and never claims to have consumed more than it was given.
-// bounds: buffers of length 0..12 (thorough 0..14), all bytes; prev key 0..2 bytes; value type 0..7; hash size 20 or 2 (so that hashes fit the bound); restart offset any 32 bit
+// bounds: buffers of length 0..10 (thorough 0..14), all bytes; prev key 0..2 bytes; value type 0..7; hash size 20 or 2 (so that hashes fit the bound); restart offset any 32 bit
 // covers: done
 func Harness_C18_decoders() {
-	n := VerifIntRange(0, 12+2*VerifTier())
+	n := VerifIntRange(0, 10+4*VerifTier())
 	buf := symBytes(n)
 	switch VerifChoose(8) {
 	case 0:
